@@ -340,15 +340,28 @@ func (e *Engine) loadContractFile(path string, pkg *types.Package) error {
 				c.Key = funcKey(pkg, fd, "$"+strings.TrimSpace(rest[i+1:]))
 			case "extern":
 				// extern import/path.Func(params) (results): assumed contract on a function outside the repository (T3)
-				j := strings.Index(rest, "(")
-				i := strings.LastIndex(rest[:j], ".")
-				fd, err := parseFuncHeader("func " + rest[i+1:])
-				if err != nil {
-					return fail(err)
+				if strings.HasPrefix(rest, "(") {
+					// method: extern (*pkg.T).Name(params) (results); the receiver is `self`
+					ri := strings.Index(rest, ").")
+					j := ri + 2 + strings.Index(rest[ri+2:], "(")
+					fd, err := parseFuncHeader("func (self int) " + rest[ri+2:])
+					if err != nil {
+						return fail(err)
+					}
+					c.Decl = fd
+					c.Trusted = true
+					c.Key = rest[:j]
+				} else {
+					j := strings.Index(rest, "(")
+					i := strings.LastIndex(rest[:j], ".")
+					fd, err := parseFuncHeader("func " + rest[i+1:])
+					if err != nil {
+						return fail(err)
+					}
+					c.Decl = fd
+					c.Trusted = true
+					c.Key = rest[:i] + "." + fd.Name.Name
 				}
-				c.Decl = fd
-				c.Trusted = true
-				c.Key = rest[:i] + "." + fd.Name.Name
 			case "chanfield":
 				// chanfield Type.field(v T): channel invariant (requires: checked at send, assumed at receive),
 				// consumes / produces ghost tokens
